@@ -100,6 +100,7 @@ type RemoteSigner struct {
 	mu       sync.Mutex
 	Handed   [][]byte
 	Calls    int
+	OnSign   func() // called inside Sign, before the signature is made
 }
 
 // Sign implements signature.Signer.
@@ -107,7 +108,11 @@ func (s *RemoteSigner) Sign(payload []byte) ([]byte, []*x509.Certificate, error)
 	s.mu.Lock()
 	s.Calls++
 	s.Handed = append(s.Handed, append([]byte(nil), payload...))
+	on := s.OnSign
 	s.mu.Unlock()
+	if on != nil {
+		on()
+	}
 	if s.SignErr != nil {
 		return nil, nil, s.SignErr
 	}
